@@ -12,20 +12,22 @@ META = {
             "model: no_reentry, held_blocks_all, view_checks_only, lock_released, revert_rolls_back, lock_values_ok. The "
             "model's pre/post are tied to the real generators by template observation over the whole family "
             "(nonreentrant x mutability x 5 evm versions x 2 keys x both pipelines; kernel equality with Coq generators "
-            "proved to compute enter/leave). Placement of the release on every exit path is checked per compiled function "
-            "by a certificate checker proved sound in Coq, run on the real Venom runtime IR (after all passes) and on the "
-            "legacy IR of generated victim contracts. The model is validated against bytecode on pyrevm with a scripted "
-            "attacker: entry kind x exit path x depth x re-entered kind, both protection styles, all configurations.",
-    "level_note": "Trusted: Coq kernel + vm_compute; the exporters (template printer, CFG extraction incl. linearisation of the "
-                  "legacy IR tree and opcode classification); pyrevm. Assumed: stores with a non-literal key do not alias the "
-                  "lock slot (C10); code after the exported IR stage (venom->asm, legacy IR->asm, assembler) is covered only by "
-                  "the EVM correspondence. Exit-path placement is established per compiled function (corpus-bounded), not for "
-                  "all programs.",
+            "proved to compute enter/leave). Placement of the release on every exit path is checked per compiled function: "
+            "the printed Venom runtime IR (after all passes) / linearised legacy IR is classified, turned into a CFG and "
+            "checked by a Coq function proved sound (printed_function_exits_pass_unlock, accepted_exit_matches_leave: every "
+            "accepted exit leaves the cell as Lock.leave does). The model is validated against bytecode on pyrevm with a "
+            "scripted attacker: 14 entry kinds (incl. default-argument selectors, raw_call callbacks, library-module "
+            "externals and @nonreentrant internals, constructor call-outs) x exit path x depth x re-entered kind, both "
+            "protection styles, all configurations.",
+    "level_note": "Trusted: Coq kernel + vm_compute; the printers (template printer, IR printer; for legacy the linearisation of "
+                  "the IR tree into blocks); pyrevm. Assumed: stores with a non-literal key do not alias the lock slot (C10); "
+                  "code after the exported IR stage (venom->asm, legacy IR->asm, assembler) is covered only by the EVM "
+                  "correspondence. Exit-path placement is established per compiled function (corpus-bounded), not for all programs.",
     "technique": "Coq proof over call-tree model + template observation (O-tie) + verified CFG checker on real IR + EVM correspondence",
 }
 
-COQ_FILES = ["C09/Lock.v", "C09/LockProofs.v", "C09/LockTpl.v", "C09/ExitCheck.v", "C09/GenLock.v", "C09/TieLock.v",
-             "C09/PropsLock.v", "C09/PropsExit.v"]
+COQ_FILES = ["C09/Lock.v", "C09/LockProofs.v", "C09/LockTpl.v", "C09/ExitCheck.v", "C09/RichCfg.v", "C09/GenLock.v",
+             "C09/TieLock.v", "C09/PropsLock.v", "C09/PropsExit.v"]
 MAX_REPORTS = 3
 
 
@@ -38,7 +40,7 @@ def part_proofs(ctx):
             "From Coq Require Import ZArith List String.\nFrom Verif Require Import C09.Lock C09.LockTpl.\nImport ListNotations.\n"
             "Definition observed_legacy : list (fam * (list sx * list sx)) := [].\n"
             "Definition observed_venom : list (fam * (list vinst * list vinst)) := [].\n")
-        ctx.coq_build(COQ_FILES[:4])
+        ctx.coq_build(COQ_FILES[:5])
         return {"kind": "translator-rejected", "name": f"lock template export failed: {type(e).__name__}: {e}", "detail": {"error": str(e)}}
     (COQ / "C09" / "GenLock.v").write_text(text)
     ctx.extra["family_size"] = fam
@@ -62,40 +64,46 @@ def build_all(ctx, cfgs):
 
 
 def part_exits(ctx, jobs, res):
-    """run the proved checker on every exported CFG.  Returns list of failures (cfg name, function)."""
-    terms, owners = [], []
+    """run the proved checker (RichCfg.check_program: classification + CFG construction + ExitCheck.check, all in
+    Coq) on the printed IR of every function.  Returns list of failures (cfg name, style, text)."""
     failures = []
-    tot = {}
+    exprs, owners = [], []
     for (cfg, pragma), r in zip(jobs, res):
         if not r.get("ok"):
             continue
         if r.get("cfg_error"):
             failures.append((cfg.name, pragma, "export: " + r["cfg_error"]))
             continue
-        for k, v in r["cfg_stats"].items():
-            tot[k] = tot.get(k, 0) + v
-        st = r["cfg_stats"]
-        # non-vacuity: protected non-view functions: np, pay, viaint x 7 exits + __default__ = 22 lock sites; the
-        # two functions whose body always raises have no reachable release (legacy: one cleanup block per function)
-        # (optimising pipelines may merge identical tails, so the floor is below 22)
-        if st["locks"] < 15 or st["unlocks"] < 15 or st["exits"] + st["rets"] < 22:
-            failures.append((cfg.name, pragma, f"export found too few lock sites: {st}"))
-        terms.append("[" + "; ".join(r["cfg_terms"]) + "]")
-        owners.append((cfg.name, pragma, r["cfg_names"]))
-    exprs = [f"map (fun p => check (fst p) (snd p)) {t}" for t in terms]
-    outs = coqrun.eval_cases("From Verif Require Import C09.ExitCheck.\n", exprs, "c09exit", shard=8)
+        # result: 6 statistics followed by one 0/1 per function
+        exprs.append(f"let p := {r['rich_program']} in let L := {r['lock_cfg']} in "
+                     f"stats_program L p ++ map (fun b : bool => if b then 1 else 0) (check_program L p {r['rich_labels']})")
+        owners.append((cfg.name, pragma, r["cfg_names"], r["cfg_stats"]))
+    outs = coqrun.eval_zlists("From Verif Require Import C09.Lock C09.LockTpl C09.ExitCheck C09.RichCfg.\n", exprs, "c09exit",
+                              shard=2, timeout=600)
     nchecked = 0
-    for (name, pragma, fnames), o in zip(owners, outs):
-        vals = [x.strip() for x in o.strip("[] ").split(";")]
-        if len(vals) != len(fnames):
-            failures.append((name, pragma, f"unexpected checker output {o[:100]}"))
+    tot = {"functions": 0, "blocks": 0, "locks": 0, "unlocks": 0, "calllocks": 0, "exits": 0, "rets": 0, "unknown_key_stores": 0}
+    for (name, pragma, fnames, pst), o in zip(owners, outs):
+        if len(o) != 6 + len(fnames):
+            failures.append((name, pragma, f"unexpected checker output of length {len(o)} for {len(fnames)} functions"))
             continue
-        for fn, v in zip(fnames, vals):
+        st = dict(zip(["blocks", "locks", "unlocks", "calllocks", "exits", "rets"], o[:6]))
+        for k, v in st.items():
+            tot[k] += v
+        tot["functions"] += len(fnames)
+        tot["unknown_key_stores"] += pst.get("unknown_key_stores", 0)
+        # non-vacuity (counted by Coq): protected non-view functions: np, pay, viaint x 7 exits + __default__ = 22 lock
+        # sites; optimising pipelines may merge identical tails, so the floor is below 22
+        if st["locks"] < 15 or st["unlocks"] < 15 or st["exits"] + st["rets"] < 22:
+            failures.append((name, pragma, f"too few lock sites classified: {st}"))
+        for fn, v in zip(fnames, o[6:]):
             nchecked += 1
-            if v != "true":
-                failures.append((name, pragma, f"function {fn}: a path to return/stop/ret does not pass the unlock store after the lock store"))
-    ctx.corr["exit_check"] = {"functions_checked": nchecked, **tot}
-    ctx.extra["exit_checker"] = "coq/C09/ExitCheck.v check (sound: exits_pass_unlock) via vm_compute on exported CFGs"
+            if v != 1:
+                failures.append((name, pragma, f"function {fn}: rejected by RichCfg.check_program (unclassifiable lock-slot store, "
+                                               "or a path to return/stop/ret that does not pass the unlock store after the lock store)"))
+    tot["functions_checked"] = nchecked
+    ctx.corr["exit_check"] = tot
+    ctx.extra["exit_checker"] = ("coq/C09/RichCfg.v check_program (classification + CFG construction in Coq; sound: check_fn_sound, "
+                                 "accepted_exit_matches_leave) via vm_compute on the printed IR")
     return failures
 
 
@@ -103,9 +111,13 @@ def part_corr(ctx, jobs, res, atts, only=None):
     rnd = ctx.rng("scen")
     scen_sets = {p: cr.build_scenarios(rnd, p) for p in (False, True)}
     preds = {}
+    ctor_sets = {p: cr.ctor_scenarios(p) for p in (False, True)}
+    cpreds = {}
     for p in (False, True):
         for tr in (False, True):
             preds[(p, tr)] = [cr.split_obs(v) for v in cr.model_predict(scen_sets[p], p, tr, f"c09m_{int(p)}{int(tr)}")]
+            cpreds[(p, tr)] = [cr.split_obs(v) for v in coqrun.eval_zlists(
+                "From Verif Require Import C09.Lock.\n", [cr.ctor_model_expr(s, p, tr) for s in ctor_sets[p]], f"c09c_{int(p)}{int(tr)}", shard=10)]
     n_eval = n_nontrivial = n_oracle = n_mismatch = 0
     dist = {}
     found_input = False
@@ -119,10 +131,12 @@ def part_corr(ctx, jobs, res, atts, only=None):
             n_mismatch += 1
             continue
         w = cr.World(cfg, pragma, r, atts[cfg.evm])
-        for s, m in zip(scen_sets[pragma], preds[(pragma, w.transient)]):
+        todo = [(s, m, False) for s, m in zip(scen_sets[pragma], preds[(pragma, w.transient)])] + \
+               [(s, m, True) for s, m in zip(ctor_sets[pragma], cpreds[(pragma, w.transient)])]
+        for s, m, is_ctor in todo:
             if only is not None and (only.get("config") != cfg.name or only.get("scenario") != s.desc or only.get("pragma_style") != pragma):
                 continue
-            real, calls = w.run(s)
+            real, calls = w.run_ctor(s) if is_ctor else w.run(s)
             n_eval += 1
             if any(mf for mf, _ in s.oracle.values()) or real[0][0] == 0:
                 n_nontrivial += 1
